@@ -140,6 +140,22 @@ def slurry_params(s):
                 epsilon=fl(s.epsilon), max_index=s.max_index)
 
 
+def fresh_dx(p, d):
+    """D15 / D85 a FRESH Slurry reads back at diameter d with the edited slurry's parameters and grading ratios.  Inside
+    the envelope (D50 above the pseudo-liquid limit of that diameter) these are the edited slurry's own D15 / D85; below
+    the limit of a LARGER section diameter the grading legitimately starts at the limit and reads back differently."""
+    try:
+        from DHLLDV import SlurryObj
+        f = SlurryObj.Slurry(Dp=d, D50=p['D50'], fluid=p['fluid'], Cv=p['Cv'], max_index=p['max_index'])
+        f.epsilon = p['epsilon']
+        f.rhos = p['rhos']
+        f.rhoi = p['rhoi']
+        f.generate_GSD(d15_ratio=p['D50'] / p['D15'], d85_ratio=p['D85'] / p['D50'])
+        return dict(D15=fl(f.get_dx(0.15)), D85=fl(f.get_dx(0.85)))
+    except Exception as e:
+        return dict(error=type(e).__name__ + ': ' + str(e)[:120])
+
+
 def observe(main, full=True):
     s = main.slurry
     pl = main.pipeline
@@ -167,7 +183,8 @@ def observe(main, full=True):
                                             avail_power=fl(sec.avail_power)))
             else:
                 rec['sections'].append(dict(kind='pipe', name=sec.name, diameter=fl(d), length=fl(sec.length), K=fl(sec.total_K),
-                                            dz=fl(sec.elev_change), params=slurry_params(pl.slurries[d])))
+                                            dz=fl(sec.elev_change), params=slurry_params(pl.slurries[d]),
+                                            fresh_dx=fresh_dx(rec['params'], d)))
         tab = []
         walk(main.sys_tab, tab)
         rec['sys_texts'] = tab
